@@ -689,7 +689,22 @@ def run_shard(shard, tier, seed):
                         arm_opentypes(res, oc)
                 pool.append(C.try_build(res, T, v))
                 if len(pool) >= 5:
-                    arm_interleave(res, rng, pool[:rng.randint(2, 5)])
+                    group = pool[:rng.randint(2, 5)]
+                    if rng.random() < 0.5:
+                        # the same type with different values: every decoder is inside the same payload codecs
+                        o = C.opts_for(tier, rng)
+                        same = [group[0]]
+                        for _ in range(len(group) - 1):
+                            try:
+                                b2 = C.try_build(res, group[0].T, U.gen_value(rng, group[0].T, o, small=True))
+                            except Exception:
+                                b2 = None
+                            if b2 is not None:
+                                same.append(b2)
+                        if len(same) >= 2:
+                            group = same
+                            res.see('interleaved-groups-of-one-type')
+                    arm_interleave(res, rng, group)
                     if i % 20 < 5:
                         arm_threads(res, rng, pool)
                     pool = []
